@@ -30,6 +30,7 @@ type Config struct {
 	MaxChoice int
 	Redirect  map[string]string // callee full name -> replacement function full name
 	Cuts      map[string]bool   // names for which rt.CutActive returns true
+	LazyBigBytes bool           // (*big.Int).Bytes returns a LazyBytes value (forced on first use other than a call/store/return)
 	Concrete  []int64           // concrete mode: values for Nondet calls (translator validation / replay-in-engine)
 	IsConc    bool
 	Trace     bool
@@ -75,6 +76,8 @@ type deferred struct {
 }
 
 type Machine struct {
+	tblCache map[*ArrayVal][]string
+	invCache map[*MapObj]map[string]bool
 	P   *Program
 	Cfg Config
 	Sol *smt.Solver
